@@ -19,7 +19,8 @@ TRUSTED_BASE = [
     'Lean 4.33 kernel; Mathlib v4.33 as a library of proved statements',
     'axioms allowed in any property theorem: propext, Classical.choice, Quot.sound (audited by #print axioms on every run); no native_decide, no bv_decide, no sorry, no axioms of our own',
     'tools/extract_consts.py (constants are re-extracted from /repo/src on every run)',
-    'tools/fingerprint.py: the hand-written model is tied to the exact token stream of the Rust functions it models; a changed function breaks the tie',
+    'rs2lean (syn-based translator) + tools/gen_equiv.py: 81 functions of the tower/group/pairing layers are re-translated from /repo/src on every run and proved equal to the model definitions (Sm9/Gen/Equiv.lean)',
+    'tools/fingerprint.py: every other hand-modelled function is tied to the exact token stream it was written from; a changed function breaks the tie',
     'the correspondence check (harness + sm9drv): differential testing of model and spec against the compiled crate in two build profiles, bounded by its generators',
     'modelled, not verified: ark-ff BigInt primitives, byteorder, rand (as a u64 script), rustc integer/overflow/debug_assert/panic semantics, lazy_static, alloc::Vec',
 ]
@@ -69,10 +70,57 @@ def prop_theorems(prop):
     return path, out
 
 
-def write_audit(prop, thms):
+RS2LEAN = os.path.join(VERIF, 'rs2lean', 'target', 'release', 'rs2lean')
+
+# which generated-equals-model theorems a property rests on (prefix of the theorem name in Gen/Equiv.lean)
+EQUIV_PREFIX = {
+    'C12': ['Fq2_'], 'C14': [], 'C11': ['Fq12_', 'Fq4_'], 'C17': ['Fq4_', 'Fq12_', 'G2m_', 'G2Prepared_'],
+    'C04': ['G1_', 'G2_'], 'C05': ['G1_mul', 'G2_mul', 'G1_double', 'G2_double', 'G1_add', 'G2_add'],
+    'C15': ['G1_eq', 'G2_eq', 'G1_to_affine', 'G2_to_affine', 'G1_is_zero', 'G2_is_zero', 'G1_zero', 'G2_zero'],
+    'C16': ['G1_', 'G2_'], 'C09': ['G1_mul', 'G2_mul', 'G1_add', 'G2_add', 'G1_eq', 'G2_eq'],
+    'C10': ['G1_to_affine', 'G2_to_affine'], 'C08': [],
+    'C01': ['G2m_', 'Fq12_final', 'G2Prepared_'], 'C02': ['G2m_', 'Fq12_final', 'G2Prepared_', 'Fq12_'],
+    'C03': ['G2m_', 'Fq12_final', 'G2Prepared_'],
+}
+
+
+def equiv_relevant(name, prop):
+    return any(name.startswith(p) for p in EQUIV_PREFIX.get(prop, []))
+
+
+def run_translator(log):
+    """returns {'ok': bool, 'report': {fn: status}, 'theorems': [names], 'error': str}"""
+    gen = os.path.join(LEAN, 'Sm9', 'Gen')
+    out = {'ok': False, 'report': {}, 'theorems': [], 'error': ''}
+    if not os.path.exists(RS2LEAN):
+        rc, o = sh(['cargo', 'build', '--offline', '--release'], cwd=os.path.join(VERIF, 'rs2lean'), timeout=1800)
+        if rc != 0:
+            out['error'] = 'rs2lean does not build: ' + o[-400:]
+            return out
+    rc, o = sh([RS2LEAN, os.path.join(REPO, 'src'), gen], timeout=300)
+    if rc != 0:
+        out['error'] = 'rs2lean failed: ' + o[-400:]
+        return out
+    rc2, o2 = sh([sys.executable, os.path.join(VERIF, 'tools', 'gen_equiv.py'), gen], timeout=120)
+    if rc2 != 0:
+        out['error'] = 'gen_equiv failed: ' + o2[-400:]
+        return out
+    try:
+        out['report'] = json.load(open(os.path.join(gen, 'rs2lean_report.json')))
+    except Exception as e:
+        out['error'] = f'report unreadable: {e}'
+        return out
+    txt = open(os.path.join(gen, 'Equiv.lean')).read()
+    out['theorems'] = re.findall(r'^theorem\s+(\w+)', txt, flags=re.M)
+    out['ok'] = True
+    log.append(('rs2lean', o.strip() + ' ' + o2.strip()))
+    return out
+
+
+def write_audit(prop, thms, equiv_names=()):
     path = os.path.join(LEAN, 'Sm9', 'Audit', prop + '.lean')
-    text = f'import Sm9.Props.{prop}\n-- GENERATED by ./check: axiom audit of every theorem of Props/{prop}.lean\n' + \
-        ''.join(f'#print axioms {n}\n' for n, _ in thms)
+    text = f'import Sm9.Props.{prop}\nimport Sm9.Gen.Equiv\n-- GENERATED by ./check: axiom audit of every theorem of Props/{prop}.lean and of the generated-equals-model theorems it rests on\n' + \
+        ''.join(f'#print axioms {n}\n' for n, _ in thms) + ''.join(f'#print axioms Sm9.GenEquiv.{n}\n' for n in equiv_names)
     if not os.path.exists(path) or open(path).read() != text:
         os.makedirs(os.path.dirname(path), exist_ok=True)
         open(path, 'w').write(text)
@@ -103,15 +151,40 @@ def lean_phase(prop, tier, log):
         res['driver_ok'] = False
         res['errors'].append('constant extraction failed: ' + out.strip()[-400:])
         return res
+    # translator: regenerate Sm9/Gen/Rust.lean + Equiv.lean from the current source
+    res['translator'] = run_translator(log)
     path, thms = prop_theorems(prop)
-    write_audit(prop, thms)
+    equiv_names = [n for n in res['translator'].get('theorems', []) if equiv_relevant(n, prop)]
+    write_audit(prop, thms, equiv_names)
     t0 = time.time()
     rc, out = sh(['lake', 'build', 'sm9drv'], cwd=LEAN, timeout=3600)
     if rc != 0:
         res['driver_ok'] = False
         res['errors'].append('model driver does not build:\n' + '\n'.join(l for l in out.splitlines() if 'error' in l)[:2000])
+    res['equiv'] = []
+    rce, oute = sh(['lake', 'build', 'Sm9.Gen.Equiv'], cwd=LEAN, timeout=3600)
+    equiv_failed = {}
+    if rce != 0:
+        etxt = open(os.path.join(LEAN, 'Sm9', 'Gen', 'Equiv.lean')).read().splitlines() if os.path.exists(os.path.join(LEAN, 'Sm9', 'Gen', 'Equiv.lean')) else []
+        starts = [(i + 1, re.match(r'theorem\s+(\w+)', l).group(1)) for i, l in enumerate(etxt) if l.startswith('theorem')]
+        generic = None
+        for l in oute.splitlines():
+            m = re.match(r'error: (\S+?\.lean):(\d+):(\d+): (.*)', l)
+            if not m:
+                continue
+            if m.group(1).endswith('Equiv.lean'):
+                ln = int(m.group(2))
+                owner = [n for (st, n) in starts if st <= ln]
+                if owner:
+                    equiv_failed.setdefault(owner[-1], m.group(4))
+            else:
+                generic = f'{m.group(1)}:{m.group(2)}: {m.group(4)}'
+        if generic and not equiv_failed:
+            # the generated definitions themselves do not elaborate: every equivalence is unproved
+            for n in res['translator'].get('theorems', []):
+                equiv_failed[n] = 'generated definitions do not build: ' + generic
     rc, out = sh(['lake', 'build', f'Sm9.Props.{prop}'], cwd=LEAN, timeout=7200)
-    log.append(('lake build', f'{time.time()-t0:.1f}s rc={rc}'))
+    log.append(('lake build', f'{time.time()-t0:.1f}s rc={rc} equiv_rc={rce}'))
     failed_lines = []
     if rc != 0:
         res['build_ok'] = False
@@ -121,6 +194,9 @@ def lean_phase(prop, tier, log):
                 failed_lines.append((m.group(1), int(m.group(2)), m.group(4)))
         res['errors'].append('\n'.join(l for l in out.splitlines() if l.startswith('error'))[:3000])
     axioms = {}
+    if rc == 0 and rce != 0:
+        # audit the property theorems alone when the generated equivalences do not build
+        write_audit(prop, thms, ())
     if rc == 0:
         rc2, out2 = sh(['lake', 'env', 'lean', os.path.join('Sm9', 'Audit', prop + '.lean')], cwd=LEAN, timeout=1800)
         for m in re.finditer(r"'([^']+)' depends on axioms: \[([^\]]*)\]", out2):
@@ -155,6 +231,30 @@ def lean_phase(prop, tier, log):
             if res['gate']:
                 st, why = 'failed', 'forbidden token in Lean sources: ' + '; '.join(res['gate'][:3])
         res['theorems'].append({'name': name, 'status': st, 'axioms': axioms.get(name, axioms.get('Sm9.' + name)), 'why': why})
+    # generated-equals-model obligations of this property
+    for n in equiv_names:
+        if not res['translator']['ok']:
+            st, why = 'failed', res['translator']['error']
+        elif n in equiv_failed:
+            st, why = 'failed', equiv_failed[n]
+        elif rce != 0 and not equiv_failed:
+            st, why = 'failed', 'Gen/Equiv.lean did not build'
+        else:
+            ax = axioms.get('Sm9.GenEquiv.' + n)
+            if rc != 0:
+                st, why = 'proved', 'built; axioms not audited in this run (property file failed)'
+            elif ax is None:
+                st, why = 'failed', 'no axiom report'
+            elif not set(ax) <= ALLOWED_AXIOMS:
+                st, why = 'failed', 'disallowed axioms'
+            else:
+                st, why = 'proved', ''
+        res['equiv'].append({'name': 'GenEquiv.' + n, 'status': st, 'axioms': axioms.get('Sm9.GenEquiv.' + n), 'why': why})
+    res['equiv_failed'] = equiv_failed
+    ok_names = set()
+    if res['translator']['ok'] and (rce == 0 or equiv_failed):
+        ok_names = set(res['translator']['theorems']) - set(equiv_failed)
+    res['equiv_ok_names'] = sorted(ok_names)
     if tier == 'thorough' and res['build_ok']:
         rc3, out3 = sh(['lake', 'env', 'leanchecker', f'Sm9.Props.{prop}'], cwd=LEAN, timeout=3600)
         log.append(('leanchecker', f'rc={rc3} {out3.strip()[-200:]}'))
@@ -163,6 +263,39 @@ def lean_phase(prop, tier, log):
             for t in res['theorems']:
                 t['status'], t['why'] = 'failed', 'leanchecker'
     return res
+
+
+def fp_cover(key, all_names):
+    """equivalence theorems that cover a fingerprinted function (None = not covered by the translator)"""
+    rel, _, rest = key.partition('::')
+    ctx, _, fn = rest.rpartition('::')
+    fn = re.sub(r'#\d+$', '', fn.split(' ')[0])
+    tower = {'fields/fq2.rs': 'Fq2', 'fields/fq4.rs': 'Fq4', 'fields/fq12.rs': 'Fq12'}
+    names = None
+    if rel in tower:
+        T = tower[rel]
+        if re.fullmatch(rf'impl (FieldElement for |Zero for |One for )?{T}', ctx):
+            if fn == 'frobenius_map':
+                names = [n for n in all_names if n.startswith(f'{T}_frob')]
+            else:
+                names = [f'{T}_{fn}']
+    elif rel == 'groups.rs':
+        pats = {r'impl < P : GroupParams > Add < G < P >> for G < P >': ['add'], r'impl < P : GroupParams > Sub < G < P >> for G < P >': ['sub'],
+                r'impl < P : GroupParams > Neg for G < P >': ['neg'], r'impl < P : GroupParams > PartialEq for G < P >': ['eq'],
+                r'impl < P : GroupParams > Mul < Fr > for G < P >': ['mul'], r'impl < P : GroupParams > Zero for G < P >': ['zero', 'is_zero'],
+                r'impl < P : GroupParams > GroupElement for G < P >': ['double'], r'impl < P : GroupParams > G < P >': ['to_affine']}
+        if ctx in pats and fn in pats[ctx]:
+            names = [f'G1_{fn}', f'G2_{fn}']
+    elif rel == 'pairings.rs':
+        if ctx == 'impl Fq12' and fn in ('final_exponentiation_first_chunk', 'final_exponentiation_last_chunk', 'final_exp_last_chunk'):
+            names = [f'Fq12_{fn}']
+        elif ctx == 'impl G2' and fn in ('point_pi1', 'point_pi2', 'eval_g_tangent', 'eval_g_line', 'q_power_frobenius', 'g_line', 'g_tangent', 'miller_loop'):
+            names = [f'G2m_{fn}']
+        elif ctx == 'impl G2Prepared' and fn == 'get_fq12':
+            names = ['G2Prepared_get_fq12']
+    if not names or any(n not in all_names for n in names):
+        return None
+    return names
 
 
 # ---------------------------------------------------------------- harness side
@@ -386,7 +519,19 @@ def decide(prop, tier, seed, replay, lean, bins, hooks, herr, driver, fp, workdi
         violations.append((f'implementation violates the property on input: {shorten(first["op"], 160)}', path, True))
 
     broken = []   # descriptions of broken obligations / correspondences without an exhibited failing input
-    failed_thms = [t for t in lean['theorems'] if t['status'] != 'proved']
+    failed_thms = [t for t in lean['theorems'] if t['status'] != 'proved'] + [t for t in lean.get('equiv', []) if t['status'] != 'proved']
+    # a changed function whose definition was re-translated and re-proved equal to the model is not a broken tie
+    all_names = set(lean.get('translator', {}).get('theorems', []))
+    ok_names = set(lean.get('equiv_ok_names', []))
+    still_changed, retranslated = [], []
+    for entry in fp['changed']:
+        key = entry.rsplit(' (', 1)[0]
+        cov = fp_cover(key, all_names) if entry.endswith('(changed)') else None
+        if cov and all(n in ok_names for n in cov):
+            retranslated.append(entry)
+        else:
+            still_changed.append(entry)
+    fp = dict(fp, changed=still_changed, retranslated=retranslated)
     if failed_thms:
         broken.append('theorem(s) no longer check: ' + ', '.join(f"{t['name']} ({t['why'][:120]})" for t in failed_thms[:6]))
     if not lean['driver_ok']:
@@ -441,8 +586,8 @@ def decide(prop, tier, seed, replay, lean, bins, hooks, herr, driver, fp, workdi
                             'model': shorten(r_['model'], 160), 'spec': shorten(r_['spec'], 160)})
     for t in lean['theorems'][:6]:
         samples.append({'obligation': t['name'], 'status': t['status'], 'axioms': t['axioms']})
-    obligations = len(lean['theorems'])
-    discharged = len([t for t in lean['theorems'] if t['status'] == 'proved'])
+    obligations = len(lean['theorems']) + len(lean.get('equiv', []))
+    discharged = len([t for t in lean['theorems'] if t['status'] == 'proved']) + len([t for t in lean.get('equiv', []) if t['status'] == 'proved'])
     meta = PROP_META.get(prop, {})
     ev = {
         'property_id': prop, 'tier': tier, 'seed': seed, 'level': 'proof',
@@ -454,6 +599,10 @@ def decide(prop, tier, seed, replay, lean, bins, hooks, herr, driver, fp, workdi
             'full_strength_proved': meta.get('full_strength', False),
             'partial': meta.get('partial', []),
             'tie': {'constants': 'extracted from /repo/src on this run', 'fingerprints_checked': fp['checked'], 'fingerprints_changed': fp['changed'],
+                    'changed_but_retranslated_and_reproved': fp.get('retranslated', []),
+                    'translated_functions': len([v for v in lean.get('translator', {}).get('report', {}).values() if v == 'translated']),
+                    'untranslated': {k: v for k, v in lean.get('translator', {}).get('report', {}).items() if v != 'translated'},
+                    'generated_equals_model': lean.get('equiv', []),
                     'hooks_built': hooks},
             'evaluations': evals, 'distinct_nontrivial': distinct,
             'rule': 'cases = committed corpus + generator classes of tools/gen.py for this property (seeded PRNG); each case is executed by the real crate in the release and dev (debug-assertions+overflow-checks) profiles, by the Lean model and by the independent Lean spec, and the outputs compared field by field; a case is non-trivial unless every operand is 0, 1, empty or the canonical identity; distinct = distinct op lines',
